@@ -96,6 +96,7 @@ def install(reg):
     ), method_of="SD")
     _install_core(reg)
     _install_expand(reg)
+    _install_meta(reg)
 
 
 # ====================================================================== structural core (C02, C04, C14, C15, C20)
@@ -381,4 +382,117 @@ def _install_expand(reg):
                     c.self.K == c.old.self.K, S.frame_nodes(c.self, c.old.self, fields=NODEF + ("succsig", "depth")),
                     S.frame_edges(c.self, c.old.self), c.self.index == c.old.self.index,
                     z3.Not(c.compute), z3.Not(c.self.expanded[c.node_id])))]},
+    ), method_of="SD")
+
+
+# ====================================================================== metadata / accessors (C20, C16)
+def _install_meta(reg):
+    NODEF = ("space", "expanded", "skipped", "parent", "cand", "seeds", "sets", "ppn", "pbn", "pnfvs")
+    a, b = z3.Int("a"), z3.Int("b")
+    Y = lambda c: c.local("__yield__")
+
+    def ids_range(c):
+        return E._RangeIter(z3.IntVal(0), c.self.K)
+
+    reg.add(Contract(
+        "biobalm.succession_diagram.SuccessionDiagram.node_ids", params=[("self", SD)], result_type=LI,
+        properties=("C20",),
+        ensures=[("contiguous_from_root", lambda c: z3.And(LI.len(c.result) == z3.If(c.self.K >= 0, c.self.K, 0), z3.ForAll(
+            [a], z3.Implies(z3.And(0 <= a, a < LI.len(c.result)), LI.at(c.result)[a] == a))))],
+        loops={0: LoopContract("for i in range(len(self))", lambda c: [
+            ("yielded_prefix", z3.And(LI.len(Y(c)) == c.i, z3.ForAll([a], z3.Implies(z3.And(0 <= a, a < c.i), LI.at(Y(c))[a] == a))))],
+            local_types={"__yield__": LI})},
+        pure=ids_range), method_of="SD")
+
+    def filtered(c, flag):
+        """ascending list of exactly the ids with expanded[i] == flag"""
+        r, v = c.result, c.self
+        return z3.And(
+            z3.ForAll([a], z3.Implies(z3.And(0 <= a, a < LI.len(r)), z3.And(S.valid(v, LI.at(r)[a]), v.expanded[LI.at(r)[a]] == flag))),
+            z3.ForAll([a, b], z3.Implies(z3.And(0 <= a, a < b, b < LI.len(r)), LI.at(r)[a] < LI.at(r)[b])),
+            z3.ForAll([b], z3.Implies(z3.And(S.valid(v, b), v.expanded[b] == flag), T.MemI(r, b))))
+
+    def filt_inv(flag):
+        def f(c):
+            y, v = Y(c), c.self
+            return [("yielded_so_far", z3.And(
+                LI.len(y) >= 0,
+                z3.ForAll([a], z3.Implies(z3.And(0 <= a, a < LI.len(y)), z3.And(0 <= LI.at(y)[a], LI.at(y)[a] < c.i, v.expanded[LI.at(y)[a]] == flag))),
+                z3.ForAll([a, b], z3.Implies(z3.And(0 <= a, a < b, b < LI.len(y)), LI.at(y)[a] < LI.at(y)[b])),
+                z3.ForAll([b], z3.Implies(z3.And(0 <= b, b < c.i, v.expanded[b] == flag), T.MemI(y, b))))),
+                    ("index_in_range", z3.And(0 <= c.i, z3.Or(c.i <= v.K, c.i == 0)))]
+        return f
+
+    for nm, flag in (("stub_ids", False), ("expanded_ids", True)):
+        reg.add(Contract(
+            "biobalm.succession_diagram.SuccessionDiagram." + nm, params=[("self", SD)], result_type=LI,
+            properties=("C20", "C04"),
+            ensures=[("exactly_the_%s_nodes_ascending" % ("expanded" if flag else "unexpanded"), (lambda fl: lambda c: filtered(c, fl))(flag))],
+            loops={0: LoopContract("for i in range(len(self))", filt_inv(flag), local_types={"__yield__": LI})},
+        ), method_of="SD")
+
+    # depth(): maximum node depth
+    reg.add(Contract(
+        "biobalm.succession_diagram.SuccessionDiagram.depth", params=[("self", SD)], result_type=TInt,
+        properties=("C20",),
+        requires=[lambda c: c.self.K >= 1, lambda c: z3.ForAll([i], z3.Implies(S.valid(c.self, i), c.self.depth[i] >= 0))],
+        ensures=[("is_maximum", lambda c: z3.And(
+            z3.ForAll([i], z3.Implies(S.valid(c.self, i), c.result >= c.self.depth[i])),
+            z3.Exists([i], z3.And(S.valid(c.self, i), c.result == c.self.depth[i]))))],
+        loops={0: LoopContract("for node in self.dag.nodes()", lambda c: [
+            ("max_so_far", z3.And(z3.ForAll([i], z3.Implies(z3.And(0 <= i, i < c.i), c.d >= c.self.depth[i])),
+                                  z3.Or(z3.And(c.i == 0, c.d == 0), z3.Exists([i], z3.And(0 <= i, i < c.i, c.d == c.self.depth[i]))),
+                                  c.d >= 0))], local_types={"d": TInt})},
+    ), method_of="SD")
+
+    # reclaim_node_data (C16): drops recomputable caches, keeps every known attractor
+    def rc_frame(v, o, upto):
+        """nodes below `upto` are reclaimed, the others untouched; nothing else changes"""
+        nonePN, noneBN, noneLN, noneLS = M.OptPN.none().t, M.OptBN.none().t, M.OptLN.none().t, M.OptLS.none().t
+        return z3.And(
+            v.K == o.K, v.index == o.index, S.frame_edges(v, o), v.net == o.net, v.sym == o.sym, v.pn == o.pn,
+            S.frame_nodes(v, o, fields=("space", "expanded", "skipped", "parent", "seeds", "sets", "succsig", "depth")),
+            z3.ForAll([i], z3.Implies(z3.And(0 <= i, i < upto), z3.And(
+                v.ppn[i] == nonePN, v.pbn[i] == noneBN, v.pnfvs[i] == noneLN,
+                v.cand[i] == z3.If(M.OptLS.is_none(o.seeds[i]), o.cand[i], noneLS)))),
+            z3.ForAll([i], z3.Implies(z3.And(upto <= i, i < o.K), z3.And(
+                v.ppn[i] == o.ppn[i], v.pbn[i] == o.pbn[i], v.pnfvs[i] == o.pnfvs[i], v.cand[i] == o.cand[i]))))
+
+    INVN = [nm for nm, _ in S.inv(M.View(_dummy_ho()))]
+
+    def pick(fn, nm):
+        return lambda c: dict(fn(c))[nm]
+
+    def rc_post(c):
+        return [("only_recomputable_data_dropped", rc_frame(c.self, c.old.self, c.self.K))] + [("inv." + nm, g) for nm, g in S.inv(c.self)]
+
+    reg.add(Contract(
+        "biobalm.succession_diagram.SuccessionDiagram.reclaim_node_data", params=[("self", SD)],
+        properties=("C16", "C14"),
+        requires=[lambda c: S.inv_all(c.self)],
+        modifies={"self": ["ppn", "pbn", "pnfvs", "cand"]},
+        ensures=[(nm, pick(rc_post, nm)) for nm in ["only_recomputable_data_dropped"] + ["inv." + x for x in INVN]],
+        loops={0: LoopContract("for node_id in self.node_ids()", lambda c: [
+            ("reclaimed_prefix", rc_frame(c.self, c.old.self, c.i)), ("index", z3.And(0 <= c.i, c.i <= c.self.K))] +
+            [("inv." + nm, g) for nm, g in S.inv(c.self)], havoc_heap={"self": ["ppn", "pbn", "pnfvs", "cand"]})},
+    ), method_of="SD")
+
+    # find_node (C20)
+    OI2 = TOpt(TInt)
+
+    def fn_post(c):
+        v, r, q = c.self, c.result, c.node_space
+        return [("found_iff_equal_space", z3.And(
+            z3.Implies(z3.Not(OI2.is_none(r)), z3.And(S.valid(v, OI2.val(r)), v.space[OI2.val(r)] == q)),
+            z3.Implies(OI2.is_none(r), z3.ForAll([i], z3.Implies(S.valid(v, i), v.space[i] != q)))))]
+
+    reg.add(Contract(
+        "biobalm.succession_diagram.SuccessionDiagram.find_node", params=[("self", SD), ("node_space", TSpace)], result_type=OI2,
+        properties=("C20",),
+        requires=[lambda c: S.inv_all(c.self), lambda c: T.wf_space(c.node_space)],
+        ensures=[(nm, pick(fn_post, nm)) for nm in ["found_iff_equal_space"]],
+        lemmas=[("L10.key_injective", lambda c: z3.ForAll([i], z3.Implies(
+            z3.And(S.valid(c.self, i), T.SKey(S.net(c.self), c.self.space[i]) == T.SKey(S.net(c.self), c.node_space),
+                   T.wf_space(c.node_space), T.dom_within(c.node_space, S.net(c.self))),
+            c.self.space[i] == c.node_space)))],
     ), method_of="SD")
